@@ -316,5 +316,8 @@ var c13ProcInputs = []struct{ name, src string }{
 	{"update method with a map function without source", "// goverter:converter\ntype C interface {\n\t// goverter:update target\n\t// goverter:map Name | Mk\n\tU(source S, target *T)\n}\n\nfunc Mk() string { return \"x\" }\n\ntype S struct{ Age int }\ntype T struct {\n\tAge  int\n\tName string\n}\n"},
 	{"fallible function returning a channel", "// goverter:converter\n// goverter:extend Mk\ntype C interface {\n\tConv(source S) (T, error)\n}\n\nfunc Mk(source int) (chan int, error) { return nil, nil }\n\ntype S struct{ A int }\ntype T struct{ A chan int }\n"},
 	{"generic struct fields", "// goverter:converter\ntype C interface {\n\tConv(source S) T\n}\n\ntype G[X any] struct{ V X }\ntype S struct{ A G[int]; B G[string] }\ntype T struct{ A G[int]; B G[string] }\n"},
+	{"skipCopySameType with a named type handed through twice", "// goverter:converter\n// goverter:skipCopySameType\ntype C interface {\n\tConv(source S) T\n}\n\ntype ID string\ntype S struct{ A ID; B ID; C ID }\ntype T struct{ A ID; B ID; C ID }\n"},
+	{"method-level skipCopySameType, named struct and named slice repeated", "// goverter:converter\ntype C interface {\n\t// goverter:skipCopySameType\n\tConv(source S) T\n\tOther(source S) *T\n}\n\ntype N struct{ V []int }\ntype L []N\ntype S struct{ A N; B N; K L; M L }\ntype T struct{ A N; B N; K L; M L }\n"},
+	{"repeated named types without skipCopySameType (sub-methods, dirty loop)", "// goverter:converter\ntype C interface {\n\tConv(source S) T\n}\n\ntype N struct{ V []int; Next *N }\ntype S struct{ A N; B N; C *N; D []N }\ntype T struct{ A N; B N; C *N; D []N }\n"},
 	{"empty output:format", "// goverter:converter\n// goverter:output:format\ntype C interface {\n\tConv(source S) T\n}\n\ntype S struct{ A int }\ntype T struct{ A int }\n"},
 }
